@@ -58,29 +58,29 @@ Proof. exact gen_zeroed_unwrap_all. Qed.
 
 (* write_zeroes / fill_zeroes as the translator regenerates their statements from src/lib.rs (Gen/Zero.v;
    what the statements mean — scopes, the drop guard, unwinding — is Model/DropLang.v): they compute exactly
-   the modelled runs, for every destructor oracle and every list of values, so C12_fill_zeroes,
+   the modelled runs, for every destructor oracle, zero-sized element type or not, and every list of values, so C12_fill_zeroes,
    C12_dropped_once and C12_fill_zeroes_plain are about the translated code *)
-Theorem C12_generated_write_zeroes : forall panics s d,
-  Gen.Zero.write_zeroes panics true (VPtr 0) (mkZmem [cell_of s] d Running) =
+Theorem C12_generated_write_zeroes : forall panics zsz s d,
+  Gen.Zero.write_zeroes panics true zsz (VPtr 0) (mkZmem [cell_of s] d Running) =
   let '(s', dd, p) := write_zeroes panics s in mkZmem [cell_of s'] (d ++ dd) (status_of p).
 Proof. exact gen_write_zeroes. Qed.
 
-Theorem C12_generated_write_zeroes_plain : forall panics c d,
-  Gen.Zero.write_zeroes panics false (VPtr 0) (mkZmem [c] d Running) = mkZmem [CZero] d Running.
+Theorem C12_generated_write_zeroes_plain : forall panics zsz c d,
+  Gen.Zero.write_zeroes panics false zsz (VPtr 0) (mkZmem [c] d Running) = mkZmem [CZero] d Running.
 Proof. exact gen_write_zeroes_nodrop. Qed.
 
-Theorem C12_generated_fill_zeroes : forall panics l,
-  Gen.Zero.fill_zeroes panics true (VSlice 0 (List.length l)) (mkZmem (map cell_of l) [] Running) =
+Theorem C12_generated_fill_zeroes : forall panics zsz l,
+  Gen.Zero.fill_zeroes panics true zsz (VSlice 0 (List.length l)) (mkZmem (map cell_of l) [] Running) =
   mem_of_run (fill_zeroes_drop panics l).
 Proof. exact gen_fill_zeroes_drop. Qed.
 
-Theorem C12_generated_fill_zeroes_plain : forall panics l,
-  Gen.Zero.fill_zeroes panics false (VSlice 0 (List.length l)) (mkZmem (map cell_of l) [] Running) =
+Theorem C12_generated_fill_zeroes_plain : forall panics zsz l,
+  Gen.Zero.fill_zeroes panics false zsz (VSlice 0 (List.length l)) (mkZmem (map cell_of l) [] Running) =
   mem_of_run (fill_zeroes_nodrop l).
 Proof. exact gen_fill_zeroes_nodrop. Qed.
 
-Theorem C12_generated_fill_zeroes_spec : forall panics ids,
-  let m := Gen.Zero.fill_zeroes panics true (VSlice 0 (List.length ids)) (mkZmem (map COld ids) [] Running) in
+Theorem C12_generated_fill_zeroes_spec : forall panics zsz ids,
+  let m := Gen.Zero.fill_zeroes panics true zsz (VSlice 0 (List.length ids)) (mkZmem (map COld ids) [] Running) in
   match first_panic panics ids with
   | Some j => cells m = repeat CZero (S j) ++ map COld (skipn (S j) ids) /\
               dropped m = firstn (S j) ids /\ status m = Unwinding
@@ -89,7 +89,7 @@ Theorem C12_generated_fill_zeroes_spec : forall panics ids,
 Proof. exact gen_fill_zeroes_spec. Qed.
 
 Example C12_generated_zero_nonvacuous :
-  Gen.Zero.fill_zeroes (fun id => Nat.eqb id 1) true (VSlice 0 3) (mkZmem [COld 0; COld 1; COld 2] [] Running) =
+  Gen.Zero.fill_zeroes (fun id => Nat.eqb id 1) true false (VSlice 0 3) (mkZmem [COld 0; COld 1; COld 2] [] Running) =
   mkZmem [CZero; CZero; COld 2] [0; 1]%nat Unwinding.
 Proof. vm_compute. reflexivity. Qed.
 
